@@ -31,7 +31,7 @@ def shards(tier):
 
 def gates(c, tier):
     need = ["call:partial-pending-completes>=2-leaves-tail", "call:empty-residue", "cut:inside-header", "chunk:empty", "role:client", "role:server",
-            "chunk:bytearray-overwritten", "chunk:memoryview", "chunk:memoryview-slice-of-larger-buffer", "chunk:memoryview-of-signed-or-char-items", "caller-edits-returned-messages", "part:stream-with-refused-message", "failed-session-before-case", "partition:single-exhaustive", "partition:pairs-exhaustive", "partition:bytewise",
+            "chunk:bytearray-overwritten", "chunk:memoryview", "chunk:memoryview-slice-of-larger-buffer", "chunk:memoryview-of-signed-or-char-items", "caller-edits-returned-messages", "callers-memoryview-still-usable", "part:stream-with-refused-message", "failed-session-before-case", "partition:single-exhaustive", "partition:pairs-exhaustive", "partition:bytewise",
             "probe:compared", "big-entry", "stream:alternative-length-forms", "bystander-session-checked"]
     return [f"never observed {k}" for k in need if c.get(k, 0) == 0]
 
@@ -242,6 +242,15 @@ def run_case(sc, stream: bytes, cuts, chunk_modes_seed, baseline=None):
         except Exception as e:
             out.append((f"receive-exc:{norm_msg(e)}", f"error-free stream raised {type(e).__name__}: {e}"))
             return out, obs
+        if isinstance(obj, memoryview):
+            # the view is the caller's object: it must still be usable afterwards (another session may get the same one)
+            try:
+                obj[:0]
+                len(obj)
+                obs["callers-memoryview-still-usable"] = 1
+            except ValueError as e:
+                out.append(("callers-memoryview-released", f"after receive() the caller's memoryview raises {e}"))
+                return out, obs
         if scribble:
             scribble()
             obs["chunk:bytearray-overwritten" if mode == 1 else "chunk:memoryview" if mode == 2 else "chunk:memoryview-of-signed-or-char-items" if mode in (4, 5) else "chunk:memoryview-slice-of-larger-buffer"] = 1
